@@ -106,7 +106,7 @@ PROPS = {
     "C10": {
         "mirsym": ["schedules", "call_path", "chain_schedules", "induce_panic"],
         "bounds": {"quick": "symbolic schedule (one decision per atomic step) of threads x calls in {2x2, 3x1, 3x2} unordered and {2x2, 3x1} ordered on one shared pattern; thorough: up to 4x2 / 3x3, cross-checked with cvc5",
-                   "thorough": "threads x calls in {2x2, 2x3, 3x2, 4x2, 3x3}, both call kinds, z3 and cvc5 must agree"},
+                   "thorough": "threads x calls in {2x2, 2x3, 3x2, 4x2, 3x3} for unordered calls and {2x2, 2x3, 3x2} for ordered calls (two atomic steps each; ordered 4x2 / 3x3 measured: no answer in 1500 s), z3 and cvc5 must agree"},
         "assumptions": COMMON_MIR + ["sequentially consistent memory (the code uses SeqCst); each atomic operation / lock-protected block is one indivisible step",
                                      "step programs (operations, operand expressions, the expression used as position) are extracted from the MIR of an accepted call; counters are 16-bit wrapping words in the interleaving model",
                                      "std::sync::Mutex / spin::Mutex internals are trusted"],
